@@ -496,6 +496,16 @@ class SolverStack:
             self.stack.append(f.get_id())
             self.keep.append(f)
 
+    def model_value(self, pc, term):
+        self.sync(pc)
+        self.n_checks += 1
+        if self.s.check() != z3.sat:
+            return None
+        try:
+            return self.s.model().eval(term, model_completion=True)
+        except Exception:
+            return None
+
     def check(self, pc, extra):
         """returns 'sat' | 'unsat' | 'unknown' for pc /\\ extra"""
         key = (tuple(f.get_id() for f in pc), extra.get_id())
@@ -590,6 +600,8 @@ class State:
         self.next_ref = z3.IntVal(FRESH_REF_BASE)
         self.heap_stack = []     # heaps used for evaluation inside old()/at_entry()
         self.facts = set()
+        self.pre_refs = set()    # ids of terms known to denote pre-state objects (ref < PARAM_REF_BASE)
+        self.pre_keep = []
         self.obligations = []
         self.spec = 0            # >0 : spec-mode evaluation (pure)
         self.side = []           # side conditions collected in spec mode (bv overflow etc.)
@@ -604,6 +616,7 @@ class State:
         self.cur_line = None
         self.assumptions_used = set()
         self.loop_entry = []     # stack of snapshots for at_entry()
+        self.defined = []        # pending definedness guards of the spec expression being evaluated
 
     # ----- naming
     def fresh(self, base, sort):
@@ -664,6 +677,18 @@ class State:
             return False
         return self.eng.solver.check(self.pc, z3.Not(c)) == 'unsat'
 
+    def forced_int(self, term):
+        """the integer value of term if the path condition forces one, else None"""
+        t = z3.simplify(term)
+        if z3.is_int_value(t):
+            return t.as_long()
+        v = self.eng.solver.model_value(self.pc, t)
+        if v is None or not z3.is_int_value(v):
+            return None
+        if self.valid(t == v):
+            return v.as_long()
+        return None
+
     def branch(self, conds, tag=''):
         """fork on mutually exclusive, exhaustive conditions; returns chosen index"""
         if self.spec:
@@ -706,8 +731,43 @@ class State:
             self.H0[name] = a
         return a
 
+    def region(self, t):
+        """memory region of a ref term: 'pre' (pre-state objects), 'par' (parameters, trace), 'new' (allocated
+        during the call); None if unknown"""
+        if z3.is_int_value(t):
+            v = t.as_long()
+            if v < PARAM_REF_BASE:
+                return 'pre'
+            if v < FRESH_REF_BASE:
+                return 'par'
+            return 'new'
+        if t.get_id() in self.pre_refs:
+            return 'pre'
+        return None
+
+    def smart_select(self, arr, ref):
+        """Select through a store chain, skipping stores at refs that are known to be different objects"""
+        ref = z3.simplify(ref)
+        rr = self.region(ref)
+        cref = ref.as_long() if z3.is_int_value(ref) else None
+        while z3.is_store(arr):
+            j = arr.arg(1)
+            if z3.is_int_value(j) and cref is not None:
+                if j.as_long() == cref:
+                    return arr.arg(2)
+                arr = arr.arg(0)
+                continue
+            if j.get_id() == ref.get_id():
+                return arr.arg(2)
+            rj = self.region(j)
+            if rr is not None and rj is not None and rr != rj:
+                arr = arr.arg(0)
+                continue
+            break
+        return z3.simplify(z3.Select(arr, ref))
+
     def hget(self, name, sort, ref):
-        return z3.simplify(z3.Select(self.harr(name, sort), ref))
+        return self.smart_select(self.harr(name, sort), ref)
 
     def cur_heap(self):
         return self.heap_stack[-1] if self.heap_stack else self.H
@@ -719,7 +779,7 @@ class State:
         if a is None:
             self.harr(name, sort)       # make sure the initial array exists
             a = self.H0[name]
-        return z3.simplify(z3.Select(a, ref))
+        return self.smart_select(a, ref)
 
     def hset(self, name, sort, ref, val):
         if self.spec:
